@@ -189,6 +189,33 @@ def audit(module, theorems):
     return res
 
 
+PATTERN_FILES = {'version': 'version.py', 'deb822': 'deb822.py', 'deps': 'deps.py', 'unsign': 'unsign.py'}
+
+
+def changed_pins(pid, pins):
+    """names of the modelled source items (functions, classes, tables, patterns) of the files this property is
+    anchored in whose AST hash differs from the committed model_pins.json: an escalation trigger, never a violation"""
+    try:
+        stored = json.load(open(os.path.join(ROOT, 'model_pins.json'), encoding='utf-8'))
+    except Exception:
+        return None
+    files = None
+    for l in open(os.path.join(ROOT, 'properties.jsonl'), encoding='utf-8'):
+        pr = json.loads(l)
+        if pr['id'] == pid:
+            files = [os.path.basename(f) for f in pr['anchors']['files']]
+    if files is None:
+        return None
+
+    def relevant(k):
+        if k.startswith('pattern:'):
+            return PATTERN_FILES.get(k.split(':')[1].split('.')[0]) in files
+        return k.split(':')[0] in files
+    cur = {k: v for k, v in pins.items() if relevant(k)}
+    old = {k: v for k, v in stored.get('pins', {}).items() if relevant(k)}
+    return sorted(k for k in set(cur) | set(old) if cur.get(k) != old.get(k))
+
+
 def load_known():
     path = os.path.join(ROOT, 'known_findings.json')
     if not os.path.exists(path):
@@ -292,17 +319,19 @@ def contains_oom(v):
     return False
 
 
-def run_stream(prop, stream, res, limit_fail=20000):
+def run_stream(prop, stream, res, limit_fail=20000, deadline=None):
     name, op, cases = stream['name'], stream['op'], stream['cases']
     t0 = time.time()
     n0 = res.evaluations
     it = iter(cases)
     while True:
-        batch = list(itertools.islice(it, BATCH))
+        batch = list(itertools.islice(it, BATCH if deadline is None else 2000))
         if not batch:
             break
         evaluate(prop, op, batch, res, name)
         if len(res.holds_fail) > limit_fail or res.aborted:
+            break
+        if deadline is not None and time.time() > deadline:
             break
     res.streams.append({'name': name, 'op': op, 'cases': res.evaluations - n0,
                         'exhaustive': bool(stream.get('exhaustive')), 'wall_s': round(time.time() - t0, 2)})
@@ -462,6 +491,19 @@ def run_check(pid, tier, seed, replay=None):
             if res.holds_fail:
                 break
 
+    # 3a. the modelled source changed (AST pins): look deeper even in the quick tier, within a time budget
+    pins_changed = changed_pins(pid, info['translate'].get('pins', {}))
+    if pins_changed and tier == 'quick' and not res.holds_fail and not res.disagree and not escalate and not res.aborted:
+        log('[%s] modelled source changed (%s): running thorough-size streams for up to 45 s' % (
+            pid, ', '.join(pins_changed[:6])))
+        deadline = time.time() + 45
+        rng3 = random.Random(rng.random())
+        for stream in prop.streams('thorough', rng3):
+            stream = dict(stream, name='pins:' + stream['name'])
+            run_stream(prop, stream, res, deadline=deadline)
+            if res.holds_fail or res.aborted or time.time() > deadline:
+                break
+
     # 3b. property-specific support checks (e.g. an external oracle)
     extra_info = {}
     extra_fails = []
@@ -604,6 +646,7 @@ def run_check(pid, tier, seed, replay=None):
         'holdsOn_false_on_model': len(res.model_fail),
         'known_findings': findings_status,
         'generated_changed': info['translate']['changed'],
+        'source_pins_changed': pins_changed,
         'translator_notes': {k: v for k, v in info['translate']['notes'].items() if k != 'patterns'},
         'build_s': {'driver': info.get('t_build_driver'), 'theorems': info.get('t_build_theorems')},
         'forbidden_constructs': info['forbidden'],
